@@ -8,6 +8,7 @@ import NV.C07.Spec
 import NV.C07.WF
 import NV.C07.Lemmas
 import NV.C07.LemmasFind
+import NV.C07.LemmasBuild
 
 namespace NV.C07
 
@@ -49,11 +50,12 @@ theorem visibility_any_flags (fl : Nat) :
     functionVisible originLocal fl = true := by
   refine ⟨?_, ?_, ?_, ?_⟩
   · have h1 : functionVisible originCallOther fl = !(hasBit fl (nameStatic ||| namePrivate ||| nameProtected)) := by
-      simp [functionVisible, originCallOther, originLocal, originDriver, originCallOut]
+      simp [functionVisible, functionVisibleGen, originCallOther, hasBit, nameStatic, namePrivate, nameProtected, bne]
+      rw [Bool.eq_iff_iff]; simp
     rw [h1, hasBit_or, hasBit_or]
-  · simp [functionVisible, originDriver]
-  · simp [functionVisible, originCallOut, originLocal, originDriver]
-  · simp [functionVisible, originLocal]
+  · simp [functionVisible, functionVisibleGen, originDriver]
+  · simp [functionVisible, functionVisibleGen, originCallOut]
+  · simp [functionVisible, functionVisibleGen, originLocal]
 
 /-- **visibility_lifted** — lifted to the model's apply_low, for every world, every cache (hit and miss paths)
     and every call: if apply_low runs a function, the flags word it tested (the slot of the object's program the
@@ -218,6 +220,63 @@ theorem find_function_correct (w : World) (hw : wfFind w = true) (p : Nat) (hp :
     (name : NameKey) :
     find w p name = specFind w p name (Spec.resolve (abstr w) p name) :=
   find_eq_spec w hw p hp name
+
+/-! ### the construction of the tables (model of the compiler, NV/C07/Build.lean) -/
+
+/-- **built_alias_flags_agree** — the loop of epilog() (as repaired): after it, every runtime slot that
+    overload_function created as an alias carries exactly the flags of the slot it aliases, plus NAME_ALIAS.  So all
+    runtime slots of one function name agree on static / private / protected / public, on NAME_UNDEFINED,
+    NAME_PROTOTYPE and NAME_TRUE_VARARGS — whichever slot find_function, a local call or a function pointer reaches
+    the function by.  (The three defects repaired in epilog() were violations of exactly this statement.)
+    Hypothesis `aliasOrdered`: an alias names an earlier slot; decidable, and evaluated by the driver on the
+    pre-epilog state of every program it builds (a violation is printed into the compared `tbl` line). -/
+theorem built_alias_flags_agree (slots : List BSlot) (hord : aliasOrdered slots = true) (j : Nat) (a : BSlot)
+    (ha : slots[j]? = some a) (hal : hasBit a.flags nameAlias = true) :
+    ∃ b wh, (epilogSlots slots)[j]? = some b ∧ (epilogSlots slots)[a.aliasFor]? = some wh ∧
+      b.flags = wh.flags ||| nameAlias :=
+  epilogSlots_alias slots hord j a ha hal
+
+/-- the modifier bits of a flags word, as the specification's `Mods` -/
+def modsOf (fl : Nat) : Spec.Mods :=
+  { static := hasBit fl nameStatic, priv := hasBit fl namePrivate, prot := hasBit fl nameProtected,
+    pub := hasBit fl namePublic }
+
+/-- a flags word from modifier bits and bookkeeping bits -/
+def mkSrc (st pr pt pub undef proto strict : Bool) : Nat :=
+  (if st then nameStatic else 0) ||| (if pr then namePrivate else 0) ||| (if pt then nameProtected else 0) |||
+  (if pub then namePublic else 0) ||| (if undef then nameUndefined else 0) ||| (if proto then namePrototype else 0) |||
+  (if strict then nameStrictTypes else 0)
+
+/-- **inherit_flags_rule_is_spec** — the flag inheritance of copy_function / overload_function (`inheritedFlags`)
+    is the specification's rule `Mods.through`, for every combination of the function's modifier bits, the inherit
+    statement's modifier bits and the bookkeeping bits (finite table, `decide`): modifiers are OR-ed, `public`
+    cancels `private`; a private function becomes hidden one level up; NAME_PROTOTYPE is kept, so "has no code"
+    survives inheritance. -/
+theorem inherit_flags_rule_is_spec :
+    ∀ st pr pt pub undef proto strict mst mpr mpt mpub : Bool,
+      let src := mkSrc st pr pt pub undef proto strict
+      let m := mkSrc mst mpr mpt mpub false false false
+      modsOf (inheritedFlags src m) = (modsOf src).through (modsOf m) ∧
+      hasBit (inheritedFlags src m) namePrototype = proto ∧
+      (pr = true → hasBit (inheritedFlags src m) nameHidden = true) ∧
+      hasBit (inheritedFlags src m) nameAlias = false := by
+  decide
+
+/-- non-vacuity: a program inheriting a static function through two parents — the pre-epilog state is
+    alias-ordered, it has an alias slot, and after epilog() that slot carries NAME_STATIC -/
+example :
+    let p0 : Program := buildProgram { progs := [] } "p0" 3 [.defn nameStatic 1 "f0" [], .var 0]
+    let w1 : World := { progs := [p0] }
+    let p1 := buildProgram w1 "p1" 4 [.inh 0 0, .var 0]
+    let p2 := buildProgram w1 "p2" 5 [.inh 0 0, .var 0]
+    let w3 : World := { progs := [p0, p1, p2] }
+    let s3 := [Item.inh 0 1, .inh 0 2, .var 0].foldl (doItem w3) {}
+    let p3 := finish "p3" 6 s3
+    let w4 : World := { progs := [p0, p1, p2, p3] }
+    let p4 := buildProgram w4 "p4" 7 [.inh 0 3, .var 0]
+    aliasOrdered s3.slots = true ∧ (s3.slots.map (fun sl => hasBit sl.flags nameAlias)) = [false, true] ∧
+    (p4.flags.map (fun f => hasBit f nameStatic)) = [true, true] ∧ WF { progs := [p0, p1, p2, p3, p4] } = true := by
+  decide
 
 /-! ### non-vacuity -/
 
